@@ -215,6 +215,8 @@ class Normaliser:
                 if e.attr == "T":
                     return Rat(p_atom(f"T({self.rat(e.value)})"))
                 return Rat(p_atom(self.qualify(d)))
+            if e.attr == "T":
+                return Rat(p_atom(f"T({self.rat(e.value)})"))
             return Rat(p_atom(f"{self.rat(e.value)}.{e.attr}"))
         if isinstance(e, ast.Subscript):
             return Rat(p_atom(f"{self.rat(e.value)}[{self._slice(e.slice)}]"))
